@@ -8,6 +8,14 @@ BASELINE_OFF = ("cd /repo && cargo nextest run --workspace --no-fail-fast --tool
 
 # id -> (engine, technique, level text, level note, design_ref)
 CLAIMED = {
+ "C01": ("E4 brokersim", "model-based stateful property testing (proptest histories against the real router stepped deterministically; reference broker model; exact shuffle-of-prefixes attribution oracle)",
+         "Generated histories of client actions (connect/subscribe/unsubscribe/publish QoS0-2 incl. bursts >200, release, ack, drain, turn partitions, Ready timing) over generated router configurations are executed against the real Router one production loop iteration at a time; after every drain each forward must be attributable to a subscription stream (no foreign/duplicate/reordered/early/late message, right topic, payload, QoS, properties), and at every idle point every stream within retention must be complete. Exploration only: bounded history length and client count.",
+         "Trusts: the reference model (harness/src/brokersim/model.rs, written from the MQTT rules), the reference matcher, hook H1 (verif_turn runs the unmodified run_inner) and the linearisation argument of DESIGN §3/§8 for link/router interleavings. Completeness only within the conservative retention bound.",
+         "§5 C01"),
+ "C13": ("E3 commitlog", "model-based stateful property testing (proptest op sequences on CommitLog against an append-history model) + exhaustive enumeration of short op sequences",
+         "Random sequences of append/read/fabricated-read ops (<=400) over segment sizes {1024,1500,4096} x limits 1..5 and every op sequence up to length 7/9 over a 6-op alphabet are run against CommitLog; after every append a full scan must be a contiguous suffix of the history with stable strictly increasing tags, whole-segment eviction and the segment bound; every read through any issued cursor must return exactly the next retained entries, Done iff nothing remains, and a continuation that resumes gap-free. Exploration only.",
+         "Trusts the model in harness/src/commitlog.rs; fabricated cursors are checked for absence of panics only; segment limit read as 'total segments incl. the active one' (unit tests and apply_retention agree).",
+         "§5 C13"),
  "C12": ("E2 topic", "exhaustive enumeration of short string pairs + property-based testing (proptest) against a reference matcher; three-way differential",
          "Every (topic, filter) pair of strings up to length 4 (quick) / 5 (thorough) over an 8-symbol alphabet with '/', '+', '#', '$' and multi-byte characters is executed through all three copies and compared with an independent reference matcher and validators; random level-wise pairs up to 8 levels beyond that. Exploration: absence is not established beyond the enumerated bound.",
          "Trusts the reference matcher in harness/src/topic.rs as a reading of MQTT 3.1.1 §4.7 plus the documented '$' rule; empty topic validity is not judged (statement silent).",
@@ -45,6 +53,8 @@ def main():
         },
         "engines": [
             {"name": "E2 topic", "path": "harness/src/topic.rs", "serves_properties": ["C12"], "kind_free_text": "reference matcher + exhaustive enumerator + proptest"},
+            {"name": "E3 commitlog", "path": "harness/src/commitlog.rs", "serves_properties": ["C13"], "kind_free_text": "append-history model + op interpreter + proptest + short-sequence enumerator"},
+            {"name": "E4 brokersim", "path": "harness/src/brokersim/", "serves_properties": ["C01"], "kind_free_text": "deterministic single-threaded driver of the real Router (hooks H1/H2/H4), simulated clients, reference broker model, proptest histories"},
         ],
         "checks": checks,
         "notes": "All checks are `./check <id>`: it rebuilds /verif/harness (path deps on /repo) and runs target/verif/vcheck. exit 0 held / 1 VIOLATION / 2 inconclusive. Known findings: KNOWN_FINDINGS.txt.",
